@@ -10,7 +10,29 @@
 (*                    moved by mv, followed by a read of the average at the   *)
 (*                    same instant                                            *)
 (*   Start            the meter is started                                    *)
-(*   ReadRate(i)      a rate is read through the public meter                 *)
+(*   Close            the meter is closed                                     *)
+(*   ReadRate(i)      a rate (i = 1..3) or the average (i = 4) is read        *)
+(*                    through the public meter                                *)
+(*                                                                            *)
+(* Lifecycle.  The package documents: "Start the kbps sample goroutine" and   *)
+(* "When closed, this kbps should never use again"; its example is            *)
+(* New; defer Close; Start; reads.  The property says: reading a rate before  *)
+(* the meter is started is refused.  A meter is therefore in one of           *)
+(*   new                 never started, not closed        reads refused  (P)  *)
+(*   running             started, not closed              reads answered (P)  *)
+(*   closed-unstarted    closed, never started            reads refused  (P)  *)
+(*   closed-after-start  started, then closed             reads refused  (L)  *)
+(*   restarted           closed, then started (again)     reads answered (L)  *)
+(* (P): demanded by the property - a meter that was never started has no      *)
+(* sample to report, whether or not it was closed meanwhile; Close does not   *)
+(* start a meter.  (L): the documentation only says that a closed meter is    *)
+(* not to be used again; the specification records what the unmodified        *)
+(* library does (Close clears the started flag, Start sets it whatever        *)
+(* happened before), the property is silent there and the replay accepts      *)
+(* either outcome.  Close is idempotent; it stops the sampler: the sampling   *)
+(* step refuses to run on a closed meter, so Observe is disabled from then    *)
+(* on (also after a later Start: the sampler it spawns sees the meter closed  *)
+(* and ends at once).  Starting a running meter once more is not modelled.    *)
 (*                                                                            *)
 (* Time is integer milliseconds.  The counter lives in Z/M (M = 2^16); the    *)
 (* difference of two counts is taken in Z/M and interpreted as a signed       *)
@@ -24,7 +46,7 @@ EXTENDS Integers, Sequences, FiniteSets
 
 CONSTANTS
   Alphabet,   \* set of <<dt, mv>>; dt in ms; mv = <<"add", d>> (d may be negative) or <<"set", v>>
-  MaxSteps,   \* bound on the number of observations
+  MaxSteps,   \* bound on the number of observations (Gen_Kxps, family "life": on the length of the history)
   AutoStart,  \* TRUE: Start is the forced first action; FALSE: Start may happen at any time
   Deviation   \* "none", or a named wrong behaviour:
               \*   "window-gt"     a window samples only when MORE than its length has elapsed
@@ -32,6 +54,7 @@ CONSTANTS
               \*   "unsigned-diff" the difference of counts is not interpreted as signed
               \*   "avg-late"      the average's baseline time is the current read, not the first one
               \*   "read-unguarded" rates can be read before Start
+              \*   "closed-counts-as-started" the read guard is "started or closed": Close opens it
 
 M    == 65536
 Half == 32768
@@ -49,11 +72,13 @@ VARIABLES
   win,      \* [Win -> [c: count at the window's previous sample, last: its time, num, den: last rate]]
   avg0, t0, \* the average's baseline: count (0 = not yet set) and time
   avg,      \* result of the last read of the average, <<num, den>>
-  started,
+  started,  \* the flag the read guard looks at
+  closed,   \* Close was called
+  ever,     \* ghost: Start was called at some time in the past
   steps,    \* number of observations so far
   g0,       \* ghost: [c, t] of the first observation that saw a non-zero counter (c = 0: none yet)
   ev        \* ghost: what the last action did
-vars == <<now, cnt, win, avg0, t0, avg, started, steps, g0, ev>>
+vars == <<now, cnt, win, avg0, t0, avg, started, closed, ever, steps, g0, ev>>
 
 \* ------------------------------------------------------------------ arithmetic
 ApplyMove(c, mv) == IF mv[1] = "add" THEN (c + mv[2] + M) % M ELSE mv[2]
@@ -111,7 +136,7 @@ Init ==
   /\ now = 0 /\ cnt = 0
   /\ win = [i \in Win |-> [c |-> 0, last |-> 0, num |-> 0, den |-> WLen[i]]]
   /\ avg0 = 0 /\ t0 = 0 /\ avg = <<0, 1>>
-  /\ started = FALSE /\ steps = 0
+  /\ started = FALSE /\ closed = FALSE /\ ever = FALSE /\ steps = 0
   /\ g0 = [c |-> 0, t |-> 0]
   /\ ev = [kind |-> "init"]
 
@@ -121,6 +146,7 @@ Observe(dt, mv) ==
       r == AvgRead(t, c)
   IN /\ steps < MaxSteps
      /\ (AutoStart => started)
+     /\ ~closed                        \* the sampler of a closed meter has stopped
      /\ now' = t /\ cnt' = c /\ steps' = steps + 1
      /\ IF c = 0                       \* a zero counter is not sampled at all
           THEN LET \* windows whose length has elapsed: the library does not sample a zero
@@ -146,29 +172,56 @@ Observe(dt, mv) ==
                          alt |-> [i \in Win |-> IF i \in f \cup m THEN AltNum(win[i].c, c) ELSE 0]]
      /\ avg0' = r[1] /\ t0' = r[2] /\ avg' = r[3]
      /\ g0' = IF g0.c = 0 /\ c # 0 THEN [c |-> c, t |-> t] ELSE g0
-     /\ UNCHANGED started
+     /\ UNCHANGED <<started, closed, ever>>
 
+\* also on a closed meter (state "restarted"): the library's Start does not look at closed
 Start ==
   /\ ~started
-  /\ started' = TRUE
+  /\ started' = TRUE /\ ever' = TRUE
   /\ ev' = [kind |-> "start"]
-  /\ UNCHANGED <<now, cnt, win, avg0, t0, avg, steps, g0>>
+  /\ UNCHANGED <<now, cnt, win, avg0, t0, avg, closed, steps, g0>>
 
-\* reading a rate: refused unless started; never changes the meter
+\* always possible, idempotent; the meter keeps what it sampled but is not started any more
+Close ==
+  /\ closed' = TRUE /\ started' = FALSE
+  /\ ev' = [kind |-> "close"]
+  /\ UNCHANGED <<now, cnt, win, avg0, t0, avg, ever, steps, g0>>
+
+\* the read guard
+Readable ==
+  \/ started
+  \/ Deviation = "read-unguarded"
+  \/ (Deviation = "closed-counts-as-started" /\ closed)
+
+\* reading a rate (i in Win) or the average (i = 4, at the instant of the last
+\* observation, where Observe read it already): refused unless the guard is
+\* open; never changes the meter
+Reads == 1..4
 ReadRate(i) ==
-  /\ ev' = [kind |-> "read", w |-> i, ok |-> (started \/ Deviation = "read-unguarded"),
-            num |-> win[i].num, den |-> win[i].den]
-  /\ UNCHANGED <<now, cnt, win, avg0, t0, avg, started, steps, g0>>
+  /\ ev' = [kind |-> "read", w |-> i, ok |-> Readable,
+            num |-> IF i \in Win THEN win[i].num ELSE avg[1],
+            den |-> IF i \in Win THEN win[i].den ELSE avg[2]]
+  /\ UNCHANGED <<now, cnt, win, avg0, t0, avg, started, closed, ever, steps, g0>>
 
 Next == \/ \E a \in Alphabet : Observe(a[1], a[2])
         \/ Start
-        \/ \E i \in Win : ReadRate(i)
+        \/ Close
+        \/ \E i \in Reads : ReadRate(i)
 
 Spec == Init /\ [][Next]_vars
+
+\* the meter's life up to Close: the lifecycle is orthogonal to what is sampled,
+\* so the large time / counter alphabets are checked without Close (SpecRun)
+\* and the whole lifecycle over a small alphabet (Spec)
+NextRun == \/ \E a \in Alphabet : Observe(a[1], a[2])
+           \/ Start
+           \/ \E i \in Win : ReadRate(i)
+SpecRun == Init /\ [][NextRun]_vars
 
 \* ------------------------------------------------------------------ the property
 TypeOK ==
   /\ now \in Nat /\ cnt \in 0..(M - 1) /\ steps \in 0..MaxSteps /\ started \in BOOLEAN
+  /\ closed \in BOOLEAN /\ ever \in BOOLEAN /\ (started => ever)
   /\ \A i \in Win : /\ win[i].c \in 0..(M - 1) /\ win[i].last \in Nat
                     /\ win[i].num \in Nat /\ win[i].den \in Nat
   /\ avg0 \in 0..(M - 1) /\ t0 \in Nat /\ avg[1] \in Nat /\ avg[2] \in Nat
@@ -228,15 +281,34 @@ Baseline ==
   /\ (g0.c = 0) => (avg0 = 0 /\ avg[1] = 0)
 
 \* reading a rate before the meter is started is refused, and a read never disturbs the meter
+\* (StartedGuard is the library's rule: the guard is the started flag, which Close clears)
 StartedGuard == ev.kind = "read" => (ev.ok <=> started)
-ReadIsPure   == [][ev'.kind = "read" => (win' = win /\ ev'.num = win[ev'.w].num /\ ev'.den = win[ev'.w].den)]_vars
+ReadIsPure   == [][ev'.kind = "read" =>
+                     /\ win' = win /\ avg' = avg /\ avg0' = avg0 /\ t0' = t0
+                     /\ ev'.w \in Win => (ev'.num = win[ev'.w].num /\ ev'.den = win[ev'.w].den)
+                     /\ ev'.w = 4 => (ev'.num = avg[1] /\ ev'.den = avg[2])]_vars
+
+\* ---- lifecycle
+\* the property's clause over every history of {Start, Close, Observe, Read}: a
+\* read is answered only if Start was called before it - whatever else happened
+\* to the meter (in particular: Close does not count as Start)
+ReadsRefusedUnlessStarted == ev.kind = "read" => (ev.ok => ever)
+\* ... and a running meter (started, not closed) answers
+ReadsAnsweredWhileRunning == (ev.kind = "read" /\ started /\ ~closed) => ev.ok
+\* the lifecycle state a read happens in, for the generated cases:
+\*   0 must be refused (never started)   1 must be answered (running)
+\*   2 the property is silent (closed after a start, or started again after Close)
+ReadClass == IF ~ever THEN 0 ELSE IF started /\ ~closed THEN 1 ELSE 2
+\* closed is for good, Close is idempotent, and a closed meter is not sampled any more
+ClosedIsFinal == [][closed => (closed' /\ win' = win /\ cnt' = cnt /\ now' = now)]_vars
+CloseIdempotent == [][(closed /\ ~started /\ ev'.kind = "close") => (started' = started /\ closed' = closed /\ ever' = ever)]_vars
 
 \* ------------------------------------------------------------------ MC view
 \* absolute time is irrelevant: only ages relative to now matter, and an age
 \* beyond the window length behaves like the window length
 Min(x, y) == IF x < y THEN x ELSE y
 View ==
-  <<steps, cnt, started, ev, avg,
+  <<steps, cnt, started, closed, ever, ev, avg,
     [i \in Win |-> IF win[i].c = 0 THEN <<0, 0, win[i].num, win[i].den>>
                    ELSE <<win[i].c, Min(now - win[i].last, WLen[i]), win[i].num, win[i].den>>],
     avg0, IF avg0 = 0 THEN 0 ELSE now - t0,
